@@ -90,7 +90,7 @@ def _worker(args):
             CC2.directed_late_joiner(drv, rng, tables, lambda t, s_, d, r: fails.append((sorted(t), s_, d, r)), stats, max(4, n_sessions // 20))
         if prop in ("C10", "C18", "C01"):
             CC2.directed_shared_block(drv, rng, tables, lambda t, s_, d, r: fails.append((sorted(t), s_, d, r)), stats, max(4, n_sessions // 20))
-        if prop in ("C04", "C18", "C01"):
+        if prop in ("C04", "C18", "C01", "C16"):
             CC2.directed_defender(drv, rng, tables, lambda t, s_, d, r: fails.append((sorted(t), s_, d, r)), stats, max(4, n_sessions // 20))
     finally:
         drv.close()
@@ -158,7 +158,7 @@ def main(prop, tier):
                 CC.directed_shared_block(drv, rng, info["tables"]["defender"], on_fail, stats, 10)
             if prop == "C07":
                 CC.directed_late_joiner(drv, rng, info["tables"]["defender"], on_fail, stats, 10)
-            if prop in ("C04", "C18", "C01"):
+            if prop in ("C04", "C18", "C01", "C16"):
                 CC.directed_defender(drv, rng, info["tables"]["defender"], on_fail, stats, 8)
         finally:
             drv.close()
